@@ -524,6 +524,13 @@ def _replay_one(script):
         sp.close()
       elif name == 'Request':
         sp.request()
+      elif name in ('OpenDone', 'Die') and params[0] - 1 >= len(w.conns):
+        # the code has not created the connection the model acts on: the behaviour is inapplicable from
+        # here on (drift, not a verdict); the events recorded so far are still judged by ShareAbs
+        if drift is None:
+          drift = {'step': steps, 'action': [name, params], 'spec': 'connection %d exists' % params[0],
+                   'real': '%d connections created' % len(w.conns)}
+        break
       elif name == 'OpenDone':
         w.env('K' if params[1] else 'F', w.conns[params[0] - 1])
       elif name == 'Die':
